@@ -127,7 +127,7 @@ def run(ck):
                                                                     for t in model.trees for l in orc.tree_leaves(t)) else 'learned'))
 
         # ---------- (ii) real leaves: predict == mean over trees of the expansion of the leaf reached (regression) ----------
-        qrows = np.concatenate([X[:3], xr.make_X('random', 3, d, rng), 1e3 * xr.make_X('random', 1, d, rng)]).astype(np.float32)
+        qrows = np.concatenate([X[:3], xr.make_X('random', 3, d, rng), 1e3 * xr.make_X('random', 1, d, rng), 1e5 * (np.abs(xr.make_X('random', 1, d, rng)) + 1.0)]).astype(np.float32)      # ordinary rows share the batch (and possibly the leaf group) with rows far outside the training range
         if task in ('reg', 'reg2'):
             with xr.quiet():
                 if i % 2 == 1:
@@ -155,7 +155,7 @@ def run(ck):
                 exp = [a / len(model.trees) for a in acc]
                 scale = max(1.0, max(abs(float(v)) for v in exp))
                 W = max(float(l['model'].weights.abs().sum()) for t in model.trees for l in orc.tree_leaves(t))
-                tol = 2e-5 * (W + scale) + light_slack(model, qrows, kern)
+                tol = 2e-5 * (W + scale) + light_slack(model, qrows[r:r + 1], kern)       # the slack scales with THIS row's magnitude, not with the batch's
                 err = max(abs(float(e) - g) for e, g in zip(exp, got[r].reshape(-1)))
                 formula_checked += 1
                 ck.case(dict(desc, kind='formula', row=r), nontrivial=True)
@@ -195,13 +195,14 @@ def run(ck):
             ref = np.concatenate([got.reshape(len(qrows), -1), np.repeat(got.reshape(len(qrows), -1)[:1], 50_011, axis=0),
                                   got.reshape(len(qrows), -1)[::-1]])
             W = max(float(l['model'].weights.abs().sum()) for t in model.trees for l in orc.tree_leaves(t))
-            tolb = 2e-5 * (W + max(1.0, float(np.abs(ref).max()))) + light_slack(model, qrows, kern)
+            tol_rows = np.array([2e-5 * (W + max(1.0, float(np.abs(ref).max()))) + light_slack(model, big[k:k + 1], kern) for k in range(len(qrows))])
+            tolb_vec = np.concatenate([tol_rows, np.repeat(tol_rows[:1], 50_011), tol_rows[::-1]])
             errs = np.abs(gbig - ref).max(axis=1)
             ck.case(dict(desc, kind='big-batch'), nontrivial=True)
-            if not (errs.max() <= tolb):
-                r = int(errs.argmax())
+            if not np.all(errs <= tolb_vec):
+                r = int((errs - tolb_vec).argmax()); tolb = float(tolb_vec[r])
                 ck.violation(f'prediction of a row depends on the batch it is in: row {r} of a {len(big)}-row batch = {gbig[r].tolist()} but the same row '
-                             f'predicted in a {len(qrows)}-row batch = {ref[r].tolist()} (err {errs.max():.3g} > {tolb:.3g}) on {desc}',
+                             f'predicted in a {len(qrows)}-row batch = {ref[r].tolist()} (err {errs[r]:.3g} > {tolb:.3g}) on {desc}',
                              dict(desc, row=big[r].tolist(), index=r, batch_rows=len(big), got=gbig[r].tolist(), want=ref[r].tolist(),
                                   how='batch = the query rows away from thresholds + 50011 copies of the first + the same rows reversed'),
                              key=json.dumps(dict(site='big-batch', kernel=kern)))
